@@ -979,7 +979,7 @@ theorem length_range (E : Env) (v : Val) : arrayUint32 E v = Spec.lengthOf E v :
   | int i =>
     simp only [arrayUint32, isIntegerKind, toI64, isUint32, maxUint32, Spec.lengthOf]
     by_cases h1 : 0 ≤ i <;> by_cases h2 : i ≤ 4294967295 <;> simp [h1, h2] <;> omega
-  | undef | null | bool _ | num _ | str _ | recv =>
+  | undef | null | bool _ | num _ | str _ | recv | obj _ =>
     rw [key _ (fun i h => by cases h) rfl]
     simp only [Spec.lengthOf, Spec.toUint32, ← toFloat_eq']
     cases toFloat E _ <;> simp [Spec.valEqNat]
@@ -1143,6 +1143,658 @@ theorem array_index_eq (s : List Nat) :
           · simp [h1, h2, h3]
     | range => rfl
     | «syntax» => rfl
+
+
+/-! ## the object layer against §8.12 and §15.4.5.1 (moved here from Theorems.lean) -/
+
+theorem alignInt_zero_iff (s : Bool) (m : Nat) (e emin : Int) : alignInt s m e emin = 0 ↔ m = 0 := by
+  unfold alignInt
+  have hp : 0 < 2 ^ (e - emin).toNat := Nat.two_pow_pos _
+  constructor
+  · intro h
+    have h0 : ((m * 2 ^ (e - emin).toNat : Nat) : Int) = 0 := by
+      simp only at h
+      split at h <;> omega
+    have : m * 2 ^ (e - emin).toNat = 0 := by exact_mod_cast h0
+    rcases Nat.mul_eq_zero.mp this with h | h
+    · exact h
+    · omega
+  · intro h; subst h; simp
+
+theorem emin_comm (e1 e2 : Int) : (if e1 ≤ e2 then e1 else e2) = (if e2 ≤ e1 then e2 else e1) := by
+  split <;> split <;> omega
+
+theorem ord_eq_iff (a b : Int) : (if a < b then Ordering.lt else if a = b then Ordering.eq else Ordering.gt) = Ordering.eq ↔ a = b := by
+  split
+  · simp; omega
+  · split <;> simp_all
+
+theorem cmpEq_fin (s1 : Bool) (m1 : Nat) (e1 : Int) (s2 : Bool) (m2 : Nat) (e2 : Int) :
+    cmpReal (.fin s1 m1 e1) (.fin s2 m2 e2) = some .eq ↔
+      alignInt s1 m1 e1 (if e1 ≤ e2 then e1 else e2) = alignInt s2 m2 e2 (if e1 ≤ e2 then e1 else e2) := by
+  simp only [cmpReal, Option.some.injEq, ord_eq_iff]
+
+theorem cmpEq_comm (x y : FV) : cmpReal x y = some .eq ↔ cmpReal y x = some .eq := by
+  cases x with
+  | nan => cases y <;> simp [cmpReal]
+  | inf s =>
+    cases y with
+    | nan => simp [cmpReal]
+    | inf t => cases s <;> cases t <;> simp [cmpReal]
+    | fin t m e => cases s <;> cases t <;> simp [cmpReal]
+  | fin s1 m1 e1 =>
+    cases y with
+    | nan => simp [cmpReal]
+    | inf t => cases s1 <;> cases t <;> simp [cmpReal]
+    | fin s2 m2 e2 =>
+      rw [cmpEq_fin, cmpEq_fin, emin_comm e2 e1]
+      exact eq_comm
+
+theorem cmpEq_zero (x y : FV) (h : cmpReal x y = some .eq) (hz : isZero x = true) : isZero y = true := by
+  cases x with
+  | nan => simp [isZero] at hz
+  | inf s => simp [isZero] at hz
+  | fin s1 m1 e1 =>
+    cases y with
+    | nan => simp [cmpReal] at h
+    | inf t => cases t <;> simp [cmpReal] at h
+    | fin s2 m2 e2 =>
+      have hm : m1 = 0 := by cases m1 with | zero => rfl | succ n => simp [isZero] at hz
+      subst hm
+      rw [cmpEq_fin] at h
+      rw [(alignInt_zero_iff _ _ _ _).mpr rfl] at h
+      have := (alignInt_zero_iff _ _ _ _).mp h.symm
+      subst this; rfl
+
+/-- the number arm of sameValue: otto's formulation (x, y) = §9.12's formulation (y, x) -/
+theorem sameNum (x y : FV) :
+    (if (isNaN x && isNaN y) = true then true
+      else if eqNum x y = true then (if isZero x = true then signBit x == signBit y else true) else false)
+    = (if isNaN y = true ∧ isNaN x = true then true
+      else if isZero y = true ∧ isZero x = true then decide (signBit y = signBit x) else decide (cmpReal y x = some .eq)) := by
+  by_cases hn : isNaN x = true ∧ isNaN y = true
+  · simp [hn.1, hn.2]
+  · have hn' : ¬ (isNaN y = true ∧ isNaN x = true) := fun h => hn ⟨h.2, h.1⟩
+    have hb : (isNaN x && isNaN y) = false := by
+      cases hx : isNaN x <;> cases hy : isNaN y <;> simp_all
+    simp only [hb, hn', if_false, Bool.false_eq_true]
+    by_cases he : cmpReal x y = some .eq
+    · have he' := (cmpEq_comm x y).mp he
+      have hq : eqNum x y = true := by simp [eqNum, he]
+      simp only [hq, if_true, he', decide_true]
+      by_cases hz : isZero x = true
+      · have hzy := cmpEq_zero x y he hz
+        simp only [hz, hzy, and_self, if_true]
+        cases signBit x <;> cases signBit y <;> simp
+      · have : ¬ (isZero y = true ∧ isZero x = true) := fun h => hz h.2
+        simp [hz, this]
+    · have he' : ¬ cmpReal y x = some .eq := fun h => he ((cmpEq_comm x y).mpr h)
+      have hq : eqNum x y = false := by simp [eqNum, he]
+      simp only [hq, Bool.false_eq_true, if_false, he', decide_false]
+      by_cases hz : isZero y = true ∧ isZero x = true
+      · exfalso
+        -- two zeros compare equal
+        obtain ⟨hy, hx⟩ := hz
+        cases x with
+        | nan => simp [isZero] at hx
+        | inf s => simp [isZero] at hx
+        | fin s1 m1 e1 =>
+          cases y with
+          | nan => simp [isZero] at hy
+          | inf s => simp [isZero] at hy
+          | fin s2 m2 e2 =>
+            have h1 : m1 = 0 := by cases m1 with | zero => rfl | succ n => simp [isZero] at hx
+            have h2 : m2 = 0 := by cases m2 with | zero => rfl | succ n => simp [isZero] at hy
+            subst h1; subst h2
+            apply he
+            rw [cmpEq_fin, (alignInt_zero_iff _ _ _ _).mpr rfl, (alignInt_zero_iff _ _ _ _).mpr rfl]
+      · simp [hz]
+
+theorem sameValue_eq (E : Env) (a b : Val) : sameValue E a b = Spec.sameValue E b a := by
+  have hf : ∀ v, toFloat E v = Spec.toNumber E v := fun v => by cases v <;> rfl
+  cases a <;> cases b <;>
+    first
+      | (simp only [sameValue, Spec.sameValue, hf]; exact sameNum _ _)
+      | (simp [sameValue, Spec.sameValue, eq_comm]; done)
+      | (simp only [sameValue, Spec.sameValue]; rename_i p q; by_cases h : p = q
+         · subst h; simp
+         · have h' : ¬ q = p := fun e => h e.symm
+           simp [h, h'])
+
+
+
+
+theorem optb (x : Option Bool) : (x == some true) = x.getD false := by
+  cases x with
+  | none => rfl
+  | some b => cases b <;> rfl
+
+/-- objectDefineOwnProperty = §8.12.9 for every property state and every data or generic descriptor -/
+theorem objectDefineOwnProperty_refines (E : Env) (k : Key) (d : Desc) (throw : Bool) (o : Obj) :
+    objectDefineOwnProperty E k d throw o = Spec.defineOwnDefault E k d throw o := by
+  obtain ⟨dv, dw, de, dc⟩ := d
+  unfold objectDefineOwnProperty Spec.defineOwnDefault
+  cases hl : lookup k o.props with
+  | none =>
+    simp only [reject, optb]
+  | some p =>
+    obtain ⟨pv, pw, pe, pc⟩ := p
+    simp only [reject, Desc.isEmpty, Desc.isGeneric, Desc.isData, sameValue_eq]
+    cases dv <;> cases dw <;>
+      cases de <;> cases dc <;> cases pw <;> cases pe <;> cases pc <;> cases throw <;> simp
+
+/-- objectDelete = §8.12.7 [[Delete]] -/
+theorem objectDelete_refines (k : Key) (throw : Bool) : objectDelete k throw = Spec.delete k throw := by
+  funext o
+  unfold objectDelete Spec.delete
+  cases lookup k o.props with
+  | none => rfl
+  | some p => cases p.c <;> cases throw <;> simp [reject]
+
+/-- strictEqualityComparison = §11.9.6 -/
+theorem strictEquals_eq (E : Env) (a b : Val) : strictEquals E a b = Spec.strictEq E a b := by
+  have hf : ∀ v, toFloat E v = Spec.toNumber E v := fun v => by cases v <;> rfl
+  have hn : ∀ x y : FV, (if (isNaN x || isNaN y) = true then false else eqNum x y) = decide (cmpReal x y = some .eq) := by
+    intro x y
+    cases x <;> cases y <;> simp [isNaN, eqNum, cmpReal]
+  cases a <;> cases b <;>
+    first
+      | (simp only [strictEquals, Spec.strictEq, hf]; exact hn _ _)
+      | (simp [strictEquals, Spec.strictEq]; done)
+      | (simp only [strictEquals, Spec.strictEq]; rename_i p q; by_cases h : p = q
+         · subst h; simp
+         · simp [h])
+
+
+/-- what objectDelete does to the store: on success the key is absent and every other key is untouched;
+    on failure nothing changes -/
+theorem objectDelete_effect (k : Key) (o : Obj) :
+    (∃ o', objectDelete k false o = .ok true o' ∧ lookup k o'.props = none ∧
+        (∀ k', k' ≠ k → lookup k' o'.props = lookup k' o.props)) ∨
+    (objectDelete k false o = .ok false o ∧ ∃ p, lookup k o.props = some p ∧ p.c = false) := by
+  unfold objectDelete
+  cases hl : lookup k o.props with
+  | none => exact Or.inl ⟨o, rfl, hl, fun _ _ => rfl⟩
+  | some p =>
+    cases hc : p.c with
+    | true =>
+      refine Or.inl ⟨{ o with props := erase k o.props }, by simp [hc], lookup_erase_self k _, fun k' h => lookup_erase_ne k k' _ h⟩
+    | false => exact Or.inr ⟨by simp [reject, hc], p, rfl, hc⟩
+
+/-- "shrinking length deletes the elements beyond it": when the shrink loop of arrayDefineOwnProperty runs to
+    completion, no element with index in [newLength, newLength + cnt) is left and no other key is touched. -/
+theorem shrinkLoop_deletes (E : Env) (newLength : Nat) (d : Desc) (nw throw : Bool) (cnt : Nat) (o o' : Obj)
+    (h : shrinkLoop E newLength d nw throw cnt o = .ok none o') :
+    (∀ n, newLength ≤ n → n < newLength + cnt → lookup (.idx n) o'.props = none) ∧
+    (∀ k, (∀ n, newLength ≤ n → n < newLength + cnt → k ≠ .idx n) → lookup k o'.props = lookup k o.props) := by
+  induction cnt generalizing o with
+  | zero =>
+    simp only [shrinkLoop, pure, M.pure] at h
+    cases h
+    exact ⟨fun n h1 h2 => by omega, fun _ _ => rfl⟩
+  | succ c ih =>
+    simp only [shrinkLoop, bind, M.bind] at h
+    rcases objectDelete_effect (.idx (newLength + c)) o with ⟨o1, h1, hnone, hother⟩ | ⟨h1, _⟩
+    · rw [h1] at h
+      simp only [Bool.not_true, Bool.false_eq_true, if_false] at h
+      obtain ⟨ihA, ihB⟩ := ih o1 h
+      constructor
+      · intro n hn1 hn2
+        by_cases hn : n = newLength + c
+        · subst hn
+          rw [ihB (.idx (newLength + c)) (fun m hm1 hm2 heq => by injection heq; omega)]
+          exact hnone
+        · exact ihA n hn1 (by omega)
+      · intro k hk
+        rw [ihB k (fun n hn1 hn2 => hk n hn1 (by omega))]
+        exact hother k (hk (newLength + c) (by omega) (by omega))
+    · rw [h1] at h
+      simp only [Bool.not_false, if_true] at h
+      -- the failure branch never returns `none`
+      exfalso
+      simp only [M.bind] at h
+      split at h
+      · cases throw <;> simp [reject, M.pure, pure] at h
+      · cases h
+
+/-- the shrink loop of arrayDefineOwnProperty is §15.4.5.1 step 3.l -/
+theorem shrinkLoop_refines (E : Env) (newLength : Nat) (d : Desc) (nw throw : Bool) (cnt : Nat) :
+    shrinkLoop E newLength d nw throw cnt = Spec.truncateLoop E newLength d nw throw cnt := by
+  induction cnt with
+  | zero => rfl
+  | succ c ih =>
+    funext o
+    simp only [shrinkLoop, Spec.truncateLoop, objectDelete_refines, ih, bind, M.bind]
+    cases Spec.delete (.idx (newLength + c)) false o with
+    | err e s => rfl
+    | ok a s =>
+      cases a with
+      | true => simp
+      | false =>
+        simp only [Bool.not_false, if_true]
+        have hd : ∀ d' : Desc, d'.v.isSome = true → objectDefineOwnProperty E .length d' false = Spec.defineOwnDefault E .length d' false :=
+          fun d' _ => funext fun s' => objectDefineOwnProperty_refines E .length d' false s'
+        cases nw <;> simp only [Bool.not_false, Bool.not_true, if_true, if_false, Bool.false_eq_true] <;>
+          rw [hd _ rfl] <;> simp only [M.bind] <;>
+          (cases Spec.defineOwnDefault E .length _ false s <;> cases throw <;> simp [reject, M.throw, pure, M.pure])
+
+
+
+
+
+
+/-! ## arrayDefineOwnProperty = §15.4.5.1 -/
+
+theorem write_same (k : Key) (p : PropD) (l : List (Key × PropD)) (h : lookup k l = some p) : write k p l = l := by
+  induction l with
+  | nil => simp [lookup] at h
+  | cons q r ih =>
+    obtain ⟨k', p'⟩ := q
+    by_cases hk : k' = k
+    · subst hk; simp [lookup] at h; subst h; simp [write]
+    · simp only [lookup, hk, if_false] at h
+      simp [write, hk, ih h]
+
+theorem write_write (k : Key) (p q : PropD) (l : List (Key × PropD)) : write k p (write k q l) = write k p l := by
+  induction l with
+  | nil => simp [write]
+  | cons x r ih =>
+    obtain ⟨k', p'⟩ := x
+    by_cases hk : k' = k
+    · simp [write, hk]
+    · simp [write, hk, ih]
+
+theorem cmpReal_refl (x : FV) (h : isNaN x = false) : cmpReal x x = some .eq := by
+  cases x with
+  | nan => simp [isNaN] at h
+  | inf s => simp [cmpReal]
+  | fin s m e => simp [cmpReal]
+
+theorem sameValue_refl (E : Env) (v : Val) : sameValue E v v = true := by
+  have num : ∀ x : FV, (if (isNaN x && isNaN x) = true then true
+      else if eqNum x x = true then (if isZero x = true then signBit x == signBit x else true) else false) = true := by
+    intro x
+    cases hn : isNaN x with
+    | true => simp
+    | false => simp [eqNum, cmpReal_refl x hn]
+  cases v <;> first | (simp only [sameValue]; exact num _) | simp [sameValue]
+
+/-- a successful objectDefineOwnProperty is idempotent: defining the same (data) descriptor again on the result
+    succeeds and changes nothing -/
+theorem odp_idem (E : Env) (k : Key) (d : Desc) (t0 t : Bool) (o o1 : Obj)
+    (h : objectDefineOwnProperty E k d t0 o = .ok true o1) :
+    objectDefineOwnProperty E k d t o1 = .ok true o1 := by
+  obtain ⟨dv, dw, de, dc⟩ := d
+  unfold objectDefineOwnProperty at h
+  cases hl : lookup k o.props with
+  | none =>
+    rw [hl] at h
+    simp only at h
+    by_cases he : o.ext = true
+    · simp only [he, Bool.not_true, Bool.false_eq_true, if_false] at h
+      injection h with _ h
+      subst h
+      unfold objectDefineOwnProperty
+      simp only [lookup_write_self, Desc.isEmpty, Desc.isGeneric, Desc.isData, write_write]
+      cases dv <;> cases dw <;> cases de <;> cases dc <;> simp [sameValue_refl]
+      all_goals (intros; simp_all)
+    · simp [he, reject] at h; cases t0 <;> simp at h
+  | some p =>
+    obtain ⟨pv, pw, pe, pc⟩ := p
+    rw [hl] at h
+    simp only [Desc.isEmpty, Desc.isGeneric, Desc.isData, reject] at h
+    rcases dv with _ | v <;> rcases dw with _ | (_ | _) <;> rcases de with _ | (_ | _) <;>
+      rcases dc with _ | (_ | _) <;> cases pw <;> cases pe <;> cases pc <;> cases t0 <;> simp at h
+    all_goals (try (split at h <;> simp at h))
+    all_goals (first | (obtain ⟨_, _, rfl⟩ := h) | (obtain ⟨_, rfl⟩ := h) | (obtain rfl := h))
+    all_goals (simp [objectDefineOwnProperty, lookup_write_self, write_write, sameValue_refl, Desc.isEmpty, Desc.isGeneric,
+                 Desc.isData, reject])
+    all_goals (intros; simp_all)
+
+theorem obj_eta (o : Obj) : ({ o with props := o.props } : Obj) = o := by cases o; rfl
+
+theorem odp_eq (E : Env) (k : Key) (d : Desc) (t : Bool) :
+    objectDefineOwnProperty E k d t = Spec.defineOwnDefault E k d t := by
+  funext s
+  exact objectDefineOwnProperty_refines E k d t s
+
+theorem oldLen_eq (o : Obj) : Spec.oldLen o = arrLength o := rfl
+
+/-- the index branch: arrayDefineOwnProperty on a canonical index = §15.4.5.1 step 4 -/
+theorem defineIndex_refines (E : Env) (m : Nat) (d : Desc) (t : Bool) (o : Obj) (hwf : WFArr o) :
+    arrayDefineIndex E (.idx m) d t m o = Spec.arrayDefineIdx E (.idx m) d t m o := by
+  obtain ⟨ha, n, w, hl, hn, hb⟩ := hwf
+  have hlp : (lookup Key.length o.props).getD ⟨.int 0, false, false, false⟩ = ⟨.int (n : Nat), w, false, false⟩ := by
+    simp only [LenProp] at hl; simp [hl]
+  simp only [arrayDefineIndex, Spec.arrayDefineIdx, oldLen_eq, arrLength_of o n w hl, lengthWritable_of o n w hl, hlp, reject]
+  by_cases hrej : m ≥ n ∧ w = false
+  · simp only [hrej, and_self, if_true]
+  · simp only [hrej, if_false, bind, M.bind, odp_eq E (.idx m) d false]
+    cases hr : Spec.defineOwnDefault E (.idx m) d false o with
+    | err e s => rfl
+    | ok b s =>
+      cases b with
+      | false => cases t <;> simp [M.throw, pure, M.pure, reject]
+      | true =>
+        simp only [Bool.not_true, Bool.false_eq_true, if_false]
+        by_cases hge : m ≥ n
+        · simp only [hge, if_true]
+          rw [odp_eq E .length _ false]
+        · simp only [hge, if_false]
+          rw [← odp_eq E (.idx m) d false] at hr
+          rw [odp_idem E (.idx m) d false t o s hr]
+          rfl
+
+
+/-- on a state whose length property is ⟨N, writable⟩: {writable:false} alone turns it read-only -/
+theorem odp_length_wfalse (E : Env) (o : Obj) (N : Nat) (hl : LenProp o N true) :
+    Spec.defineOwnDefault E .length { w := some false } false o
+      = .ok true { o with props := write .length ⟨.int N, false, false, false⟩ o.props } := by
+  rw [← odp_eq E .length { w := some false } false]
+  simp only [LenProp] at hl
+  simp [objectDefineOwnProperty, hl, Desc.isEmpty, Desc.isGeneric, Desc.isData]
+
+/-- the tail of the length branch (after the first define succeeded) = §15.4.5.1 steps 3.l–3.n -/
+theorem shrinkTail_refines (E : Env) (N : Nat) (D : Desc) (t : Bool) (cnt : Nat) (o1 : Obj)
+    (hc : Cok D) (hv : D.v = some (.int N)) (hw : D.w ≠ some false) (nw : Bool)
+    (ha : o1.isArr = true) (hl : LenProp o1 N true) (hb : Bound o1 (N + cnt)) (hlt : N + cnt < 2^32) :
+    arrayShrinkTail E N D nw t cnt o1 = Spec.truncateTail E N D nw t cnt o1 := by
+  have hs := shrink_inv E N D nw t hc cnt o1 ha hl hb hlt
+  simp only [arrayShrinkTail, Spec.truncateTail, bind, M.bind, ← shrinkLoop_refines]
+  cases hr : shrinkLoop E N D nw t cnt o1 with
+  | err e o2 => rfl
+  | ok r o2 =>
+    rw [hr] at hs
+    cases r with
+    | some b => rfl
+    | none =>
+      obtain ⟨ha2, hl2, hb2⟩ := hs
+      simp only
+      cases nw with
+      | true =>
+        simp only [Bool.not_true, Bool.false_eq_true, if_false]
+        rw [odp_length_ok E o2 N N D t hl2 hv hc]
+        have hw' : D.w.getD true = true := by
+          cases hD : D.w with
+          | none => rfl
+          | some b => cases b with
+            | true => rfl
+            | false => exact absurd hD hw
+        rw [hw']
+        have hsame : ({ o2 with props := write .length ⟨.int N, true, false, false⟩ o2.props } : Obj) = o2 := by
+          rw [write_same _ _ _ hl2]
+        rw [hsame]
+        rfl
+      | false =>
+        simp only [Bool.not_false, if_true, M.bind]
+        have hv' : ({ D with w := some false } : Desc).v = some (.int N) := hv
+        have h1 := odp_length_ok E o2 N N { D with w := some false } false hl2 hv' hc
+        rw [h1]
+        simp only []
+        rw [odp_idem E .length { D with w := some false } false t o2 _ h1]
+        rw [odp_length_wfalse E o2 N hl2]
+        rfl
+
+/-- the "length" branch: arrayDefineOwnProperty = §15.4.5.1 step 3 -/
+theorem setLength_refines (E : Env) (d : Desc) (t : Bool) (N : Nat) (o : Obj) (hwf : WFArr o) (hN : N < 2^32) :
+    arraySetLength E d t N o = Spec.arraySetLen E d t N o := by
+  obtain ⟨ha, n, w, hl, hn, hb⟩ := hwf
+  have hlp : (lookup Key.length o.props).getD ⟨.int 0, false, false, false⟩ = ⟨.int (n : Nat), w, false, false⟩ := by
+    simp only [LenProp] at hl; simp [hl]
+  simp only [arraySetLength, Spec.arraySetLen, oldLen_eq, arrLength_of o n w hl, lengthWritable_of o n w hl, hlp, reject]
+  by_cases hge : N ≥ n
+  · simp only [hge, if_true]
+    rw [odp_eq E .length _ t]
+  · simp only [hge, if_false]
+    -- the chain define; tail on a writable length with N < n
+    have chain : ∀ (D : Desc) (nw : Bool), D.v = some (.int N) → D.w ≠ some false → w = true →
+        ((do let ok ← objectDefineOwnProperty E .length D t
+             if !ok then pure false else arrayShrinkTail E N D nw t (n - N)) : M Obj Bool) o
+        = ((do let succeeded ← Spec.defineOwnDefault E .length D t
+               if !succeeded then pure false else Spec.truncateTail E N D nw t (n - N)) : M Obj Bool) o := by
+      intro D nw hDv hDw hw
+      subst hw
+      simp only [bind, M.bind, ← odp_eq E .length D t]
+      by_cases hc : Cok D
+      · rw [odp_length_ok E o n N D t hl hDv hc]
+        simp only [Bool.not_true, Bool.false_eq_true, if_false]
+        have hw' : D.w.getD true = true := by
+          cases hD : D.w with
+          | none => rfl
+          | some b => cases b with
+            | true => rfl
+            | false => exact absurd hD hDw
+        rw [hw']
+        refine shrinkTail_refines E N D t (n - N)
+          { o with props := write .length ⟨.int N, true, false, false⟩ o.props } hc hDv hDw nw ha ?_ ?_ ?_
+        · simp [LenProp, lookup_write_self]
+        · intro i hi1 hi2
+          simp only at hi2
+          rw [lookup_write_ne .length (.idx i) _ _ (by intro e; cases e)] at hi2
+          have := hb i hi1 hi2; omega
+        · omega
+      · rw [odp_length_rej E o n true D t hl (by rw [hDv]; rfl) hc]
+        cases t <;> rfl
+    cases w with
+    | false => simp
+    | true =>
+      simp only [Bool.not_true, Bool.false_eq_true, if_false]
+      rcases hdw : d.w with _ | (_ | _)
+      · simpa using chain ⟨some (.int N), none, d.e, d.c⟩ true rfl (by simp) rfl
+      · simpa using chain ⟨some (.int N), some true, d.e, d.c⟩ false rfl (by simp) rfl
+      · simpa using chain ⟨some (.int N), some true, d.e, d.c⟩ true rfl (by simp) rfl
+
+/-- the representation invariant of keys: `name s` is never used for "length" … nor for a canonical index
+    numeral (those are `idx n`); the driver's `keyOfBytes` guarantees it -/
+def KeyOK : Key → Prop
+  | .length => True
+  | .idx _ => True
+  | .name s => Spec.arrayIndex? s = none
+
+/-- **arrayDefineOwnProperty = §15.4.5.1** on a well-formed array, for every key, every data descriptor with
+    optional fields, either throw flag. -/
+theorem arrayDefineOwnProperty_refines (E : Env) (k : Key) (d : Desc) (t : Bool) (o : Obj) (hwf : WFArr o)
+    (hk : KeyOK k) :
+    arrayDefineOwnProperty E k d t o = Spec.arrayDefineOwn E k d t o := by
+  unfold arrayDefineOwnProperty Spec.arrayDefineOwn
+  by_cases hkl : k = .length
+  · subst hkl
+    simp only [if_true]
+    cases hv : d.v with
+    | none =>
+      simp only
+      rw [odp_eq E .length d t]
+    | some nv =>
+      simp only [← length_range]
+      cases hu : arrayUint32 E nv with
+      | none => rfl
+      | some N =>
+        simp only
+        exact setLength_refines E d t N o hwf (arrayUint32_lt E nv N hu)
+  · simp only [hkl, if_false]
+    cases k with
+    | length => exact absurd rfl hkl
+    | idx m =>
+      rw [stringToArrayIndex_idx]
+      simp only [Key.toBytes, arrayIndex_dec]
+      by_cases hm : m < 2^32 - 1
+      · have h0 : ((m : Nat) : Int) ≥ 0 := by omega
+        simp only [hm, if_true, h0, Int.toNat_natCast]
+        exact defineIndex_refines E m d t o hwf
+      · simp only [hm, if_false]
+        have : ¬ ((-1 : Int) ≥ 0) := by omega
+        simp only [this, if_false]
+        rw [odp_eq E _ d t]
+    | name s =>
+      have h2 : Spec.arrayIndex? s = none := hk
+      have : ¬ (stringToArrayIndex (.name s) ≥ 0) := by
+        simp only [stringToArrayIndex, Key.toBytes, array_index_eq, h2]; omega
+      simp only [this, if_false, Key.toBytes, h2]
+      rw [odp_eq E _ d t]
+
+/-- hence §15.4.5.1 itself keeps the length invariant (transfer through the refinement) -/
+theorem wf_specArrayDefine (E : Env) (k : Key) (d : Desc) (t : Bool) (o : Obj) (hwf : WFArr o)
+    (hk : KeyOK k) :
+    WFArr (stateOf (Spec.arrayDefineOwn E k d t o)) := by
+  rw [← arrayDefineOwnProperty_refines E k d t o hwf hk]
+  exact wf_arrayDefine E o k d t hwf
+
+/-! ## objectPut = §8.12.5, histories -/
+
+/-- [[Put]] on an existing writable data property: otto passes the property's own attributes along with the new
+    value, §8.12.5 step 3 passes the value alone — the same [[DefineOwnProperty]] -/
+theorem dod_full_vo (E : Env) (k : Key) (v : Val) (t : Bool) (o : Obj) (p : PropD)
+    (hl : lookup k o.props = some p) (hw : p.w = true) :
+    Spec.defineOwnDefault E k ⟨some v, some p.w, some p.e, some p.c⟩ t o = Spec.defineOwnDefault E k { v := some v } t o := by
+  obtain ⟨pv, pw, pe, pc⟩ := p
+  simp only at hw; subst hw
+  simp only [Spec.defineOwnDefault, hl]
+  cases pe <;> cases pc <;> cases t <;> simp
+
+/-- the truncation loop does not depend on which of the two descriptors it carries -/
+theorem truncateLoop_irrel (E : Env) (N : Nat) (v : Val) (t : Bool) (cnt : Nat) :
+    ∀ o1 : Obj, LenProp o1 N true →
+      Spec.truncateLoop E N ⟨some v, some true, some false, some false⟩ true t cnt o1
+        = Spec.truncateLoop E N { v := some v } true t cnt o1 := by
+  induction cnt with
+  | zero => intro _ _; rfl
+  | succ c ih =>
+    intro o1 hl
+    simp only [Spec.truncateLoop, bind, M.bind, ← objectDelete_refines]
+    rcases objectDelete_cases (.idx (N + c)) o1 with h1 | ⟨h1, _⟩
+    · rw [h1]
+      simp only [Bool.not_true, Bool.false_eq_true, if_false]
+      apply ih
+      simp only [LenProp]; rw [lookup_erase_ne _ _ _ (by intro e; cases e)]; exact hl
+    · rw [h1]
+      simp only [Bool.not_false, if_true, Bool.not_true, Bool.false_eq_true, if_false]
+      rw [← odp_eq E .length _ false, ← odp_eq E .length _ false]
+      simp only [M.bind]
+      rw [odp_length_ok E o1 N (N + c + 1) ⟨some (.int ((N + c + 1 : Nat) : Int)), some true, some false, some false⟩ false hl rfl ⟨by simp, by simp⟩,
+          odp_length_ok E o1 N (N + c + 1) { v := some (.int ((N + c + 1 : Nat) : Int)) } false hl rfl ⟨by simp, by simp⟩]
+      rfl
+
+/-- §15.4.5.1 gives the same result for otto's full descriptor and §8.12.5's value-only descriptor -/
+theorem specDefine_full_vo (E : Env) (k : Key) (v : Val) (t : Bool) (o : Obj) (p : PropD) (hwf : WFArr o)
+    (hl : lookup k o.props = some p) (hw : p.w = true) :
+    Spec.arrayDefineOwn E k ⟨some v, some p.w, some p.e, some p.c⟩ t o = Spec.arrayDefineOwn E k { v := some v } t o := by
+  unfold Spec.arrayDefineOwn
+  by_cases hk : k = .length
+  · subst hk
+    obtain ⟨ha, n, w, hlen, hn, hb⟩ := hwf
+    have hp : p = ⟨.int (n : Nat), w, false, false⟩ := by
+      simp only [LenProp] at hlen; rw [hlen] at hl; injection hl with hl; exact hl.symm
+    subst hp
+    simp only at hw; subst hw
+    simp only [if_true]
+    cases hN : Spec.lengthOf E v with
+    | none => rfl
+    | some N =>
+      simp only
+      have hlp : (lookup Key.length o.props).getD ⟨.int 0, false, false, false⟩ = ⟨.int (n : Nat), true, false, false⟩ := by
+        simp only [LenProp] at hlen; simp [hlen]
+      simp only [Spec.arraySetLen, oldLen_eq, arrLength_of o n true hlen, hlp]
+      have hfv := dod_full_vo E .length (.int N) t o ⟨.int (n : Nat), true, false, false⟩ hl rfl
+      simp only at hfv
+      by_cases hge : N ≥ n
+      · simp only [hge, if_true]; exact hfv
+      · simp only [hge, if_false, Bool.true_eq_false, if_false]
+        have e1 : (!decide ((some true : Option Bool) = some false)) = true := by decide
+        have e2 : (!decide ((none : Option Bool) = some false)) = true := by decide
+        simp only [e1, e2, if_true, bind, M.bind, hfv]
+        rw [← odp_eq E .length { v := some (.int N) } t,
+            odp_length_ok E o n N { v := some (.int N) } t hlen rfl ⟨by simp, by simp⟩]
+        simp only [Option.getD_none, Bool.not_true, Bool.false_eq_true, if_false, Spec.truncateTail, bind, M.bind]
+        rw [truncateLoop_irrel E N (.int N) t (n - N) _ (by simp [LenProp, lookup_write_self])]
+  · simp only [hk, if_false]
+    cases hi : Spec.arrayIndex? k.toBytes with
+    | none => exact dod_full_vo E k v t o p hl hw
+    | some index =>
+      simp only [Spec.arrayDefineIdx, bind, M.bind, dod_full_vo E k v false o p hl hw]
+
+/-- **objectPut = §8.12.5 [[Put]]** (with §15.4.5.1 underneath) on a well-formed array, for every key in `KeyOK` -/
+theorem objectPut_refines (E : Env) (k : Key) (v : Val) (t : Bool) (o : Obj) (hwf : WFArr o) (hk : KeyOK k) :
+    objectPut E k v t o = Spec.put E k v t o := by
+  unfold objectPut Spec.put
+  simp only [canPutDetails, Spec.canPut, defineOwnProperty, Spec.defineOwn, hwf.arr, if_true, bind, M.bind]
+  cases hl : lookup k o.props with
+  | some p =>
+    simp only
+    cases hw : p.w with
+    | false => simp
+    | true =>
+      simp only [Bool.not_true, Bool.false_eq_true, if_false]
+      rw [arrayDefineOwnProperty_refines E k _ t o hwf hk]
+      rw [specDefine_full_vo E k v t o p hwf hl hw]
+  | none =>
+    cases hp : protoLookup k o with
+    | none =>
+      simp only
+      cases he : o.ext with
+      | false => simp
+      | true =>
+        simp only [Bool.not_true, Bool.false_eq_true, if_false]
+        rw [arrayDefineOwnProperty_refines E k _ t o hwf hk]
+    | some pv =>
+      simp only
+      cases he : o.ext with
+      | false => simp
+      | true =>
+        simp only [Bool.not_true, Bool.false_eq_true, if_false]
+        rw [arrayDefineOwnProperty_refines E k _ t o hwf hk]
+
+
+/-! ### histories: model = specification -/
+
+/-- the same history on the specification side (§15.4.5.1 / §8.12.5 / §8.12.7) -/
+def HOp.specRun (E : Env) : HOp → Obj → Obj
+  | .define k d t, o => stateOf (Spec.defineOwn E k d t o)
+  | .put k v t, o => stateOf (Spec.put E k v t o)
+  | .delete k t, o => stateOf (Spec.delete k t o)
+
+def specRunHist (E : Env) : List HOp → Obj → Obj
+  | [], o => o
+  | op :: ops, o => specRunHist E ops (op.specRun E o)
+
+/-- the side condition of a step: keys respect the representation invariant -/
+def StepOK : HOp → Prop
+  | .define k _ _ => KeyOK k
+  | .put k _ _ => KeyOK k
+  | .delete _ _ => True
+
+def HistOK (ops : List HOp) : Prop := ∀ op ∈ ops, StepOK op
+
+theorem step_refines (E : Env) (op : HOp) (o : Obj) (hwf : WFArr o) (hok : StepOK op) :
+    op.run E o = op.specRun E o := by
+  cases op with
+  | define k d t =>
+    simp only [HOp.run, HOp.specRun, defineOwnProperty, Spec.defineOwn, hwf.arr, if_true]
+    rw [arrayDefineOwnProperty_refines E k d t o hwf hok]
+  | put k v t =>
+    simp only [HOp.run, HOp.specRun]
+    rw [objectPut_refines E k v t o hwf hok]
+  | delete k t =>
+    simp only [HOp.run, HOp.specRun, objectDelete_refines]
+
+/-- **history_refines**: every finite history of [[DefineOwnProperty]] / [[Put]] / [[Delete]] on an array (any
+    descriptor, any key) leaves exactly the object that ES5 prescribes — and that object satisfies the length
+    invariant. -/
+theorem history_refines (E : Env) (ops : List HOp) (o : Obj) (hwf : WFArr o) (hok : HistOK ops) :
+    runHist E ops o = specRunHist E ops o ∧ WFArr (specRunHist E ops o) := by
+  induction ops generalizing o with
+  | nil => exact ⟨rfl, hwf⟩
+  | cons op ops ih =>
+    have h1 : StepOK op := hok op (List.mem_cons_self ..)
+    have h2 : HistOK ops := fun x hx => hok x (List.mem_cons_of_mem _ hx)
+    have hwf' : WFArr (op.run E o) := by
+      cases op with
+      | define k d t => exact wf_defineOwn E o k d t hwf
+      | put k v t => exact wf_put E o k v t hwf
+      | delete k t => exact wf_delete o k t hwf
+    have hs := step_refines E op o hwf h1
+    simp only [runHist, specRunHist]
+    rw [← hs]
+    exact ih (op.run E o) hwf' h2
 
 
 end OttoVerif.C08.Thm
